@@ -90,3 +90,32 @@ def reform(arr, k):
     ro = arr.copy()
     ro.setflags(write=False)
     return name, ro
+
+
+REFORMS2D = ["asis", "fortran", "row-strided", "col-strided", "readonly", "flipped"]
+
+
+def reform2d(arr, k):
+    """The same 2-D array in a different memory layout."""
+    import numpy as np
+
+    arr = np.asarray(arr)
+    name = REFORMS2D[k % len(REFORMS2D)]
+    if arr.ndim != 2 or name == "asis":
+        return "asis", arr
+    r, c = arr.shape
+    if name == "fortran":
+        return name, np.asfortranarray(arr)
+    if name == "row-strided":
+        buf = np.zeros((2 * r + 1, c), dtype=arr.dtype)
+        buf[:2 * r:2] = arr
+        return name, buf[:2 * r:2]
+    if name == "col-strided":
+        buf = np.zeros((r, 2 * c + 1), dtype=arr.dtype)
+        buf[:, :2 * c:2] = arr
+        return name, buf[:, :2 * c:2]
+    if name == "flipped":
+        return name, arr[::-1, ::-1].copy()[::-1, ::-1]
+    ro = arr.copy()
+    ro.setflags(write=False)
+    return name, ro
